@@ -159,7 +159,20 @@ class C16(Prop):
             "extracted model decides whether SOME interleaving of the critical sections gives exactly that outcome (ballowed/tallowed, "
             "theorems builder_allowed_iff / tracer_allowed_iff / accepted_calls_sound); quick: 3000+2500 rounds plain and 1000+1000 rounds "
             "in the race-enabled binary (any race-detector report = VIOLATION, clause 'without data races'), plus TestVerifC16Race; "
-            "thorough adds TracingRoundTripper/TracingHandler over loopback HTTP/1.1 and h2 under -race")
+            "thorough adds TracingRoundTripper/TracingHandler over loopback HTTP/1.1 and h2 under -race. "
+            "Call sites (c16.mw): ONE exchange through the real TracingHandler (scripted handler: declare / set declared and prefixed "
+            "trailers, WriteHeader, Write ok or failing, read the request body, cancellation point, panic) or the real TracingRoundTripper "
+            "(scripted transport: reads / closes / ignores the request body, fails or answers; response body in chunks with a terminal "
+            "error or io.EOF after putting the trailers in place; consumer: Read / Close / cancel) with a Collector that projects the "
+            "trace INCLUDING Response.Trailer at the moment of Complete; compared with the model: the calls as seen at Complete and the "
+            "same Trace values after the exchange; every handler script <= 4 (thorough 5) over 10 operations, every consumer script <= 5 "
+            "(thorough 7) on 4 bodies, + 11000 random. Consumers: c16.fetch = scripts of Init/Complete/Clear on a real Tracer and "
+            "setOutcome on a real testResults (fetchTrace goroutines; after every action the harness waits until each has returned or "
+            "is parked in Await's select, per the runtime's goroutine dump), every script <= 4 (thorough 5) over 2 names up to renaming "
+            "+ 2500 random + one script in which the 5 s TraceTimeout really passes; compared: r.traces per name (nothing / trace id / "
+            "nil), Tracer view, waiting goroutines, HTTP traces printed by report(); c16.wire = scripts of withWireCapture contexts, "
+            "wireTracer.Complete, setWireTrace, Tracer Init/Clear, examineWireDetails, every script <= 4 over 11 actions + 2000 random "
+            "(a second hand-over = crash on both sides); c16.wiremw = a client exchange through the real newWireCaptureTransport")
     trusted_base = ("Coq 8.16.1 kernel (vm_compute used, native_compute not)", "extraction (ExtrOcamlBasic only) + ocaml/driver.ml",
                     "vlib generators/comparator, Go overlay harness (harness/C16)",
                     "modelled not verified: Go mutex / channel close / select semantics (one action per lock region; a closed "
@@ -182,15 +195,32 @@ class C16(Prop):
                   "a wait never outlives its context; the builder calls the collector at most once, exactly once iff named and "
                   "finished/built, with the events up to the first finishing one and nothing after it, numbered per direction; the "
                   "two-step builder (critical section, collector call after unlock) delivers the same under every schedule because "
-                  "the trace is cleared inside the lock. The model is tied to tracer.go/builder.go by an exhaustive small-scope "
-                  "differential run and by free-running goroutines whose observed outcomes must be the outcome of some interleaving "
-                  "(oracles proved exact), on every check.")
+                  "the trace is cleared inside the lock. Call sites: the operations TracingHandler / TracingRoundTripper perform for an "
+                  "exchange are a function of the exchange; in its result, for EVERY exchange, every write to the Trailer map of the "
+                  "trace's response precedes the wrapper's finishing add (mutations_before_finish); for arbitrary operation lists, no "
+                  "write after the hand-over implies the collector saw the trace as it is at the end (delivered_trace_final); hence, when "
+                  "no cancellation / request-body error ends the operation early, the trace is delivered with its trailers and is not "
+                  "written afterwards (delivered_with_trailers). Consumers, over all histories: fetchTrace stores only what a successful "
+                  "Await returned, a failed fetch changes nothing stored, the first stored trace is kept until the name is initialised "
+                  "again; the wire wrapper keeps the first trace, a second hand-over crashes, one traced operation never hands over "
+                  "twice, the Tracer behind it sees exactly the forwarded completions. The model is tied to tracer.go / builder.go / "
+                  "middleware.go / results.go / wire_details.go by exhaustive small-scope differential runs driving the real functions "
+                  "and by free-running goroutines whose observed outcomes must be the outcome of some interleaving (oracles proved "
+                  "exact), on every check.")
     level_note = ("Trusted: Coq kernel, extraction, OCaml driver, harness. Model-code correspondence is sampled (exhaustive to "
                   "length 5/6 scripted; thousands of free-running rounds per check), not proved. Go's mutex/channel/select semantics "
-                  "are assumed; data-race freedom is tested with -race, not proved; middleware.go's call sites (who adds which event) "
-                  "are exercised by the thorough stress run only.")
-    technique = ("Coq invariant proofs over arbitrary action lists (tracer slots/waiters, builder, two-step builder refinement); exhaustive "
-                 "small-scope differential; free-running goroutines judged by a proved-exact interleaving oracle; race detector")
+                  "are assumed; data-race freedom is tested with -race, not proved. middleware.go: bodies are scripted at message "
+                  "granularity (whole enveloped messages / byte counts; envelope parsing of partial messages is not C16's subject), the "
+                  "fake transport puts the trailers in place before io.EOF like net/http; the cancel goroutine's add is forced to land "
+                  "at the scripted point. As the code stands, a cancellation or request-body error that ends the operation while the "
+                  "handler still runs delivers the trace at once and the handler's epilogue still writes Response.Trailer of the "
+                  "delivered trace (modelled and observed identically; excluded from delivered_with_trailers by hypothesis, example "
+                  "ex_cancel_then_trailers). fetchTrace's 5 s timeout path runs once per quick check; examineWireDetails' 1 s grace "
+                  "wait for a trace that is not there is answered by the harness itself unless VERIF_C16_SLOW is set.")
+    technique = ("Coq invariant proofs over arbitrary action lists (tracer slots/waiters, builder, two-step builder refinement, "
+                 "middleware scripts as functions of the exchange, consumer state machines); exhaustive small-scope differential on the "
+                 "real Tracer, builder, TracingHandler / TracingRoundTripper, testResults.fetchTrace, wireTracer; free-running goroutines "
+                 "judged by a proved-exact interleaving oracle; race detector")
     go_timeout = 1500
 
     def nontrivial(self, case, res):
@@ -268,24 +298,24 @@ class C16(Prop):
             yield ["c16.bfine", rng.choice(["n", "n", "n", ""]), rng.randrange(2), seq]
 
         # ---- middleware call sites: real TracingHandler / TracingRoundTripper, scripted handler / transport / consumer ----
-        L = 3 if quick else 4
+        L = 4 if quick else 5
         for n in range(0, L + 1):
             for i, ops in enumerate(itertools.product(HOPS_SMALL, repeat=n)):
                 yield ["c16.mw", "T/x", 0, [i % 2, [1] if i % 3 else [], 0 if i % 5 else 2], (i // 2) % 2, [list(o) for o in ops]]
-        for n in range(0, 5 if quick else 7):
+        for n in range(0, 6 if quick else 8):
             for i, ops in enumerate(itertools.product(COPS, repeat=n)):
                 for resp in ([0, [2, 1], 0], [1, [1, 2], 0], [1, [1], 2], [0, [], 0]):
                     yield ["c16.mw", "T/x", 1, [i % 2, [1], 0], (1, 0, 2, 1)[i % 4], 0, resp, [[1, [1]], [2, []]], [list(o) for o in ops]]
-        for _ in range(4000 if quick else 150000):
+        for _ in range(6000 if quick else 150000):
             yield ["c16.mw"] + rand_server(rng)
-        for _ in range(3000 if quick else 100000):
+        for _ in range(5000 if quick else 100000):
             yield ["c16.mw", rng.choice(["T/x", "T/x", "T/x", "n", ""]), 1] + rand_client_tail(rng)
         # ---- consumer: results.go fetchTrace on a real Tracer ----
         for acts in fetch_seqs(4 if quick else 5):
             full = fetch_ok(acts)
             if full is not None:
                 yield ["c16.fetch", full, NAMES[:2]]
-        for _ in range(1500 if quick else 40000):
+        for _ in range(2500 if quick else 40000):
             acts = []
             for i in range(rng.randint(5, 12)):
                 k = rng.choice([0, 0, 1, 1, 1, 2, 3, 3, 3, 3])
@@ -305,7 +335,7 @@ class C16(Prop):
                 acts.append(rng.choice([[0, c, 1], [0, c, 1], [0, c, 0], [1, c, n, i + 1, rng.choice([0, 200, 404])],
                                         [1, c, n, i + 1, 200], [2, c, i + 1, rng.choice([0, 200])], [3, n], [3, n], [4, n], [5, c]]))
             yield ["c16.wire", rng.randrange(2), acts, [0, 1, 2], NAMES[:2]]
-        for _ in range(2500 if quick else 60000):
+        for _ in range(4000 if quick else 60000):
             yield (["c16.wiremw", rng.choice(["T/x", "T/x", "T/x", ""]), rng.choice([1, 1, 1, 0]), rng.choice([1, 1, 0]),
                     rng.choice([1, 1, 1, 0]), rng.choice([200, 200, 404])] + rand_client_tail(rng))
         # (last, so that the shrinker works on cheaper scripts first: every candidate containing (4) waits 5 s)
